@@ -14,8 +14,8 @@ package main
 import (
 	"bytes"
 	"flag"
-	"io"
 	"fmt"
+	"io"
 	"reflect"
 	"sort"
 	"strings"
@@ -119,6 +119,77 @@ func (it *item) hasNil() bool {
 		}
 	}
 	return false
+}
+
+func (it *item) countNil() int {
+	n := 0
+	if it.kind == "nil" {
+		n++
+	}
+	for _, x := range it.arr {
+		n += x.countNil()
+	}
+	for _, x := range it.vals {
+		n += x.countNil()
+	}
+	return n
+}
+
+// nilSpelling: one alternate way a format has of writing "nil" on the wire. The library's own
+// encoders write only the primary spelling, so round trips never meet the others.
+//
+//	cbor: null 0xf6 (primary), undefined 0xf7 (advanceNil / TryNil / ContainerType / DecodeNaked
+//	      all take it for nil);
+//	json: null, with insignificant whitespace around the literal;
+//	msgpack 0xc0, binc 0x00-special-nil, simple 0x01: a single spelling each.
+type nilSpelling struct {
+	name     string
+	old, new []byte
+}
+
+var nilSpellings = map[string][]nilSpelling{
+	"cbor": {{"cbor:undefined(0xf7)", []byte{0xf6}, []byte{0xf7}}},
+	"json": {{"json:null-with-whitespace", []byte("null"), []byte(" null\n")}},
+}
+
+// altNilStreams rewrites the encoder's output with every (which = 0), every other (1: the 1st,
+// 3rd, ...; 2: the 2nd, 4th, ...) nil written in the alternate spelling. The primary spelling must
+// occur in the bytes exactly once per nil item of the tree (then every occurrence IS a nil
+// position: no int, length or string byte can be mistaken for one); otherwise no variant is made.
+func altNilStreams(format string, bs []byte, nNil int) (out [][]byte, names []string) {
+	if nNil == 0 {
+		return
+	}
+	for _, sp := range nilSpellings[format] {
+		if bytes.Count(bs, sp.old) != nNil {
+			continue
+		}
+		for which := 0; which < 3; which++ {
+			if which > 0 && nNil < 2 {
+				break
+			}
+			var b []byte
+			rest, k := bs, 0
+			for {
+				i := bytes.Index(rest, sp.old)
+				if i < 0 {
+					break
+				}
+				b = append(b, rest[:i]...)
+				if which == 0 || (k%2 == 0) == (which == 1) {
+					b = append(b, sp.new...)
+				} else {
+					b = append(b, sp.old...)
+				}
+				rest = rest[i+len(sp.old):]
+				k++
+			}
+			b = append(b, rest...)
+			out = append(out, b)
+			names = append(names, sp.name+[]string{"/all", "/odd", "/even"}[which])
+		}
+	}
+	return
 }
 
 // ---- types ----
@@ -523,9 +594,9 @@ func randItem(r *vh.Rng, t reflect.Type, cur reflect.Value, nilProb int) *item {
 
 type mergeCtx struct {
 	mapReset, sliceReset, ifaceReset bool
-	nilIntoNonNilPtrField           bool // a stream nil met a struct field holding a non-nil pointer
-	ifaceElemKept                   bool // a []interface{} element holding a value was decoded into under SliceElementReset
-	err                             bool
+	nilIntoNonNilPtrField            bool // a stream nil met a struct field holding a non-nil pointer
+	ifaceElemKept                    bool // a []interface{} element holding a value was decoded into under SliceElementReset
+	err                              bool
 }
 
 func scalarInto(c *mergeCtx, d reflect.Value, it *item) {
@@ -964,6 +1035,593 @@ func arrayMapSweep(sum *vh.Summary) {
 	}
 }
 
+// decodeTwice decodes into d, and (when that worked) the same bytes once more into the result.
+// after = the destination after the FIRST decode.
+type outcome struct {
+	err        error
+	after      reflect.Value
+	obs, twice string
+	idemOK     bool
+}
+
+func decodeTwice(newDec func() *codec.Decoder, d reflect.Value) (o outcome) {
+	o.obs, o.twice, o.idemOK = "None", "None", true
+	o.err = newDec().Decode(d.Addr().Interface())
+	o.after = d
+	if o.err == nil {
+		o.obs = "(Some " + coqVal(d) + ")"
+		snap := deepCopy(d)
+		if err2 := newDec().Decode(d.Addr().Interface()); err2 == nil {
+			o.twice = "(Some " + coqVal(d) + ")"
+			o.idemOK = vh.DeepEq(snap, d, vh.EqOpts{})
+		} else {
+			o.idemOK = false
+		}
+		o.after = snap
+	}
+	return
+}
+
+// judgeAlt: the same stream with nils written in an alternate spelling (ra) against the primary
+// spelling (r1): same error status, same destination, same behaviour on the second decode.
+func judgeAlt(sum *vh.Summary, cj0 map[string]interface{}, name string, ab []byte, r1, ra outcome) {
+	bad := ""
+	switch {
+	case (r1.err != nil) != (ra.err != nil):
+		bad = "fails where the primary spelling succeeds (or the reverse)"
+	case r1.err == nil && !vh.DeepEq(r1.after, ra.after, vh.EqOpts{}):
+		bad = "leaves another destination than the primary spelling"
+	case r1.err == nil && (r1.twice != ra.twice || r1.idemOK != ra.idemOK):
+		bad = "behaves differently from the primary spelling on the second decode"
+	}
+	if bad == "" {
+		return
+	}
+	cj := map[string]interface{}{}
+	for k, v := range cj0 {
+		cj[k] = v
+	}
+	cj["spelling"], cj["alt_stream"] = name, vh.Hex(ab)
+	cj["primary_err"], cj["alt_err"] = r1.err != nil, ra.err != nil
+	if r1.err == nil && ra.err == nil {
+		cj["primary_after"], cj["alt_after"] = coqVal(r1.after), coqVal(ra.after)
+	}
+	sp := name
+	if i := strings.Index(sp, "/"); i >= 0 {
+		sp = sp[:i]
+	}
+	sum.FailC("nilspelling", "nil-spelling:"+sp, "a stream nil in the alternate wire spelling "+bad, cj)
+}
+
+// ---- deterministic sweep: nil at every single position, every spelling ----
+
+type pt19 struct {
+	A int
+	B string
+}
+
+type big19 struct {
+	A int
+	B string
+	P *int
+	L []int
+	R []pt19
+	M map[string]int
+	S pt19
+	I interface{}
+	Q *pt19
+	X []*int
+}
+
+var nilSweepTypes = []reflect.Type{
+	tInt, tStr, reflect.TypeOf((*int)(nil)), reflect.TypeOf((**int)(nil)), reflect.TypeOf((*string)(nil)), tIface,
+	reflect.TypeOf([]int(nil)), reflect.TypeOf([]string(nil)), reflect.TypeOf([]interface{}(nil)), // fast path
+	reflect.TypeOf([]*int(nil)), reflect.TypeOf([]pt19(nil)), reflect.TypeOf([]*pt19(nil)), reflect.TypeOf([][]int(nil)), reflect.TypeOf([]map[string]int(nil)),
+	reflect.TypeOf(map[string]int(nil)), reflect.TypeOf(map[string]string(nil)), reflect.TypeOf(map[string]interface{}(nil)), // fast path
+	reflect.TypeOf(map[string]*int(nil)), reflect.TypeOf(map[string]pt19(nil)), reflect.TypeOf(map[string]*pt19(nil)), reflect.TypeOf(map[string][]int(nil)),
+	reflect.TypeOf(pt19{}), reflect.TypeOf((*pt19)(nil)), reflect.TypeOf(big19{}), reflect.TypeOf((*big19)(nil)),
+	reflect.TypeOf([2]*int{}), reflect.TypeOf([2]pt19{}), reflect.TypeOf(struct{ K [2]*pt19 }{}), // arrays: oracle only
+}
+
+// fillFull populates every position with a non-zero value: pointers allocated, slices of 2 elements
+// with one populated spare element, maps with the keys a and b, interfaces holding an int64.
+func fillFull(v reflect.Value, salt *int) {
+	*salt++
+	switch v.Kind() {
+	case reflect.Int:
+		v.SetInt(int64(10 + *salt))
+	case reflect.String:
+		v.SetString("p" + string(rune('a'+*salt%26)))
+	case reflect.Interface:
+		v.Set(reflect.ValueOf(int64(-5 - *salt)))
+	case reflect.Ptr:
+		p := reflect.New(v.Type().Elem())
+		fillFull(p.Elem(), salt)
+		v.Set(p)
+	case reflect.Array:
+		for i := 0; i < v.Len(); i++ {
+			fillFull(v.Index(i), salt)
+		}
+	case reflect.Slice:
+		s := reflect.MakeSlice(v.Type(), 3, 3)
+		for i := 0; i < 3; i++ {
+			fillFull(s.Index(i), salt)
+		}
+		v.Set(s.Slice(0, 2))
+	case reflect.Map:
+		m := reflect.MakeMap(v.Type())
+		for _, k := range []string{"a", "b"} {
+			e := reflect.New(v.Type().Elem()).Elem()
+			fillFull(e, salt)
+			m.SetMapIndex(reflect.ValueOf(k), e)
+		}
+		v.Set(m)
+	case reflect.Struct:
+		for i := 0; i < v.NumField(); i++ {
+			fillFull(v.Field(i), salt)
+		}
+	}
+}
+
+// fullItem: a stream that mentions every position of t (slices: 3 elements, one more than
+// fillFull's length; maps: the known key a and the new key c); structs as maps or as arrays.
+func fullItem(t reflect.Type, structAsArr bool, salt *int) *item {
+	*salt++
+	switch t.Kind() {
+	case reflect.Int:
+		return &item{kind: "int", z: int64(40 + *salt)}
+	case reflect.String:
+		return &item{kind: "str", s: "v" + string(rune('a'+*salt%26))}
+	case reflect.Interface:
+		return &item{kind: "int", z: int64(-40 - *salt)}
+	case reflect.Ptr:
+		return fullItem(t.Elem(), structAsArr, salt)
+	case reflect.Array, reflect.Slice:
+		n := 3
+		if t.Kind() == reflect.Array {
+			n = t.Len()
+		}
+		it := &item{kind: "arr", arr: []*item{}}
+		for i := 0; i < n; i++ {
+			it.arr = append(it.arr, fullItem(t.Elem(), structAsArr, salt))
+		}
+		return it
+	case reflect.Map:
+		it := &item{kind: "map"}
+		for _, k := range []string{"a", "c"} {
+			it.keys = append(it.keys, k)
+			it.vals = append(it.vals, fullItem(t.Elem(), structAsArr, salt))
+		}
+		return it
+	case reflect.Struct:
+		if structAsArr {
+			it := &item{kind: "arr", arr: []*item{}}
+			for i := 0; i < t.NumField(); i++ {
+				it.arr = append(it.arr, fullItem(t.Field(i).Type, structAsArr, salt))
+			}
+			return it
+		}
+		it := &item{kind: "map"}
+		for i := 0; i < t.NumField(); i++ {
+			it.keys = append(it.keys, t.Field(i).Name)
+			it.vals = append(it.vals, fullItem(t.Field(i).Type, structAsArr, salt))
+		}
+		return it
+	}
+	panic("fullItem " + t.String())
+}
+
+func (it *item) size() int {
+	n := 1
+	for _, x := range it.arr {
+		n += x.size()
+	}
+	for _, x := range it.vals {
+		n += x.size()
+	}
+	return n
+}
+
+// withNilAt: a copy of the tree with its k-th node (pre-order, map keys not counted) replaced by nil
+func (it *item) withNilAt(k *int) *item {
+	if *k == 0 {
+		*k = -1
+		return &item{kind: "nil"}
+	}
+	if *k > 0 {
+		*k--
+	}
+	out := &item{kind: it.kind, z: it.z, s: it.s, keys: it.keys}
+	if it.arr != nil {
+		out.arr = []*item{}
+	}
+	for _, x := range it.arr {
+		out.arr = append(out.arr, x.withNilAt(k))
+	}
+	for _, x := range it.vals {
+		out.vals = append(out.vals, x.withNilAt(k))
+	}
+	return out
+}
+
+// nilSweep: for every type of a fixed list, every single position of a full stream replaced by nil
+// (and one stream with two nils, so that the mixed-spelling variants exist), into the zero and the
+// fully populated destination, no option / all reset options, five formats; runCase adds every
+// alternate spelling of the nils. Seed-independent.
+func nilSweep(sum *vh.Summary, cv *vh.Cases, fast bool, build string) {
+	id := 2000000
+	for _, t := range nilSweepTypes {
+		for _, asArr := range []bool{false, true} {
+			salt := 0
+			base := fullItem(t, asArr, &salt)
+			if asArr && base.coq() == fullItem(t, false, new(int)).coq() {
+				continue // no struct in t
+			}
+			var streams []*item
+			for k := 0; k < base.size(); k++ {
+				kk := k
+				streams = append(streams, base.withNilAt(&kk))
+			}
+			if n := base.size(); n >= 3 {
+				k1, k2 := n-1, 0
+				two := base.withNilAt(&k1)
+				k2 = n - 2
+				if x := two.withNilAt(&k2); x.countNil() == 2 {
+					streams = append(streams, x)
+				}
+			}
+			for _, it := range streams {
+				for dk, mk := range []func() reflect.Value{
+					func() reflect.Value { return reflect.New(t).Elem() },
+					func() reflect.Value { d := reflect.New(t).Elem(); fillFull(d, new(int)); return d },
+				} {
+					for _, reset := range []bool{false, true} {
+						if reset && dk == 0 {
+							continue
+						}
+						for _, format := range vh.Formats {
+							id++
+							o := vh.Opts{"MapValueReset": reset, "SliceElementReset": reset, "InterfaceReset": reset, "DeleteOnNilMapValue": id%4 == 0, "SignedInteger": true, "WriteExt": true, "RawToString": true}
+							runCase(sum, cv, fast, build, caseIn{id: id, label: "nilsweep", t: t, format: format, o: o, mk: mk, it: it, src: id % 3,
+								noModel: !(format == "cbor" && dk == 1 && !reset)}) // to the model: cbor, both spellings, populated destination
+						}
+					}
+				}
+			}
+		}
+	}
+}
+
+// ---- deterministic sweep: stream arrays longer than the pre-sizing cap ----
+
+type bigElem struct {
+	name string
+	t    reflect.Type              // the slice type
+	dst  func(i int) reflect.Value // a populated destination element
+	it   func(i int) *item         // the i-th stream element
+	refl bool                      // no generated fast path for this slice type
+}
+
+func intItem(z int) *item { return &item{kind: "int", z: int64(z)} }
+
+var bigElems = []bigElem{
+	{"struct", reflect.TypeOf([]pt19(nil)),
+		func(i int) reflect.Value { return reflect.ValueOf(pt19{A: -1 - i, B: "old"}) },
+		func(i int) *item {
+			switch {
+			case i%97 == 96:
+				return &item{kind: "nil"}
+			case i%2 == 1: // partial: B stays as it was (zero beyond the destination's length)
+				return &item{kind: "map", keys: []string{"A"}, vals: []*item{intItem(i)}}
+			}
+			return &item{kind: "map", keys: []string{"A", "B"}, vals: []*item{intItem(i), {kind: "str", s: "n"}}}
+		}, true},
+	{"ptr", reflect.TypeOf([]*int(nil)),
+		func(i int) reflect.Value { x := -1 - i; return reflect.ValueOf(&x) },
+		func(i int) *item {
+			if i%5 == 4 {
+				return &item{kind: "nil"}
+			}
+			return intItem(i)
+		}, true},
+	{"int", reflect.TypeOf([]int(nil)),
+		func(i int) reflect.Value { return reflect.ValueOf(-1 - i) },
+		func(i int) *item {
+			if i%97 == 96 {
+				return &item{kind: "nil"}
+			}
+			return intItem(i + 1)
+		}, false},
+	{"string", reflect.TypeOf([]string(nil)),
+		func(i int) reflect.Value { return reflect.ValueOf("old") },
+		func(i int) *item { return &item{kind: "str", s: "s" + string(rune('a'+i%26))} }, false},
+	{"iface", reflect.TypeOf([]interface{}(nil)),
+		func(i int) reflect.Value {
+			if i%2 == 0 {
+				return reflect.ValueOf(int64(-1 - i))
+			}
+			return reflect.ValueOf("old")
+		},
+		func(i int) *item {
+			if i%2 == 0 {
+				return intItem(-2 - i)
+			}
+			return &item{kind: "str", s: "n"}
+		}, false},
+}
+
+// bigSliceSweep: kSlice / DecSliceXY pre-size a slice to min(stream length, max(1024, MaxInitLen))
+// and grow it inside the element loop (growslice: len = the new capacity) when the stream is longer;
+// the result must still have exactly the stream's length, hold the merge of the old elements with the
+// stream, and not change when the same bytes are decoded again. Lengths around and beyond the cap,
+// into nil / shorter / shorter-with-spare-capacity / equal / longer destinations, reflection and
+// fast-path element types, length-prefixed and indefinite-length / json streams. Seed-independent.
+func bigSliceSweep(sum *vh.Summary, cv *vh.Cases, fast bool, build string) {
+	type fm struct {
+		format string
+		indef  bool
+	}
+	fms := []fm{{"cbor", false}, {"cbor", true}, {"msgpack", false}, {"binc", false}, {"simple", false}, {"json", false}}
+	dstKinds := []string{"nil", "shorter", "shorter+spare-capacity", "equal", "longer"}
+	id := 5000000
+	for _, be := range bigElems {
+		for _, mil := range []int{0, 4, 1500, 4096} {
+			lens := []int{1023, 1024, 1025, 1101, 2049, 5000}
+			switch {
+			case mil == 4:
+				lens = []int{1025, 1101}
+			case mil == 1500:
+				lens = []int{1101, 1500, 1501, 2049}
+			case mil == 4096:
+				lens = []int{4096, 4097, 5000}
+			case be.name != "struct" && be.name != "int":
+				lens = []int{1024, 1025, 1101}
+			}
+			if mil != 0 && be.name != "struct" && be.name != "int" {
+				continue
+			}
+			for _, n := range lens {
+				it := &item{kind: "arr", arr: []*item{}}
+				for i := 0; i < n; i++ {
+					it.arr = append(it.arr, be.it(i))
+				}
+				for _, f := range fms {
+					eo := vh.Opts{"IndefiniteLength": f.indef, "SignedInteger": true, "WriteExt": true, "RawToString": true}
+					var bs []byte
+					if err := codec.NewEncoderBytes(&bs, vh.NewHandle(f.format, eo)).Encode(it.generic()); err != nil {
+						panic(err)
+					}
+					for _, dk := range dstKinds {
+						if n == 5000 && (dk == "equal" || dk == "longer") {
+							continue
+						}
+						id++
+						ser := be.refl && (dk == "shorter+spare-capacity" || dk == "longer")
+						src := id % 3
+						o := vh.Opts{"MaxInitLen": mil, "SliceElementReset": ser, "SignedInteger": true, "WriteExt": true, "RawToString": true}
+						if src == 2 {
+							o["ReaderBufferSize"] = 16
+						}
+						h := vh.NewHandle(f.format, o)
+						mk := func() reflect.Value {
+							d := reflect.New(be.t).Elem()
+							ln, cp := 0, 0
+							switch dk {
+							case "nil":
+								return d
+							case "shorter":
+								ln, cp = 3, 3
+							case "shorter+spare-capacity":
+								ln, cp = 3, 1050
+							case "equal":
+								ln, cp = n, n
+							case "longer":
+								ln, cp = n+7, n+9
+							}
+							s := reflect.MakeSlice(be.t, cp, cp)
+							for i := 0; i < cp; i++ {
+								s.Index(i).Set(be.dst(i)) // the spare capacity holds stale values
+							}
+							d.Set(s.Slice(0, ln))
+							return d
+						}
+						d0, d1 := mk(), mk()
+						dlen, dcap := d0.Len(), d0.Cap()
+						newDec := func() *codec.Decoder {
+							if src == 0 {
+								return codec.NewDecoderBytes(bs, h)
+							}
+							return codec.NewDecoder(plainReader{bytes.NewReader(bs)}, h)
+						}
+						err1 := newDec().Decode(d0.Addr().Interface())
+						ctx := &mergeCtx{sliceReset: ser}
+						merge(ctx, d1, it)
+						prefix := "length-prefixed"
+						if f.indef || f.format == "json" {
+							prefix = "no-length-prefix"
+						}
+						path := "reflection"
+						if fast && !be.refl {
+							path = "fastpath"
+						}
+						rel := "stream<=presize-cap"
+						if n > max(1024, mil) {
+							rel = "stream>presize-cap"
+						}
+						cls := fmt.Sprintf("%s:%s:%s", prefix, path, rel)
+						cj := map[string]interface{}{"format": f.format, "IndefiniteLength": f.indef, "type": be.t.String(), "stream_len": n, "dst": dk, "dst_len": dlen, "dst_cap": dcap,
+							"MaxInitLen": mil, "SliceElementReset": ser, "build": build, "source": []string{"bytes", "io.Reader", "io.Reader+buffer"}[src],
+							"elements": "element i of the stream: see bigElems[" + be.name + "].it(i) in harness/cmd/c19/main.go", "index": id}
+						firstDiff := func(a, b reflect.Value) int {
+							for i := 0; i < a.Len() && i < b.Len(); i++ {
+								if !vh.DeepEq(a.Index(i), b.Index(i), vh.EqOpts{}) {
+									return i
+								}
+							}
+							return min(a.Len(), b.Len())
+						}
+						switch {
+						case err1 != nil || ctx.err:
+							cj["impl_err"], cj["spec_err"] = err1 != nil, ctx.err
+							sum.FailC("bigslice", "big-slice:error:"+cls, "decoding a long well-typed stream array into a slice failed", cj)
+						case d0.Len() != n:
+							cj["got_len"] = d0.Len()
+							sum.FailC("bigslice", "big-slice:length:"+cls, "the decoded slice does not have the length of the stream array", cj)
+						case !vh.DeepEq(d0, d1, vh.EqOpts{}):
+							k := firstDiff(d0, d1)
+							cj["first_differing_index"], cj["got"], cj["want"] = k, coqVal(d0.Index(k)), coqVal(d1.Index(k))
+							sum.FailC("bigslice", "big-slice:merge:"+cls, "a long stream array decoded into a slice differs from the documented merge", cj)
+						}
+						var snap reflect.Value
+						twice := "None"
+						if err1 == nil {
+							snap = deepCopy(d0)
+							err2 := newDec().Decode(d0.Addr().Interface())
+							if err2 == nil {
+								twice = "(Some " + coqVal(d0) + ")"
+							}
+							if err2 != nil || !vh.DeepEq(snap, d0, vh.EqOpts{}) {
+								cj["len_after_first"], cj["len_after_second"], cj["second_err"] = snap.Len(), d0.Len(), err2 != nil
+								sum.FailC("bigslice", "big-slice:idem:"+cls, "decoding the same long stream array a second time changed the slice", cj)
+							}
+						}
+						sum.Count("bigslice."+f.format, fmt.Sprintf("big/%s/%v/%s/%d/%s/%d/%v", f.format, f.indef, be.name, n, dk, mil, err1 != nil))
+						// a few of them also go to the model (it knows no capacity: the length is the stream's)
+						if n == 1025 && mil == 0 && (dk == "nil" || dk == "shorter") && (f.format == "json" || f.format == "cbor") && (be.name == "struct" || be.name == "int") && err1 == nil {
+							cv.Add(fmt.Sprintf("mkcase %d %s (mkDopts false %s false false) %s %s %s (Some %s) %s", id, vh.CoqBool(fast), vh.CoqBool(ser),
+								coqType(be.t), coqVal(mk()), it.coq(), coqVal(snap), twice))
+							sum.ModelCases++
+						}
+					}
+				}
+			}
+		}
+	}
+}
+
+// caseIn: one destination type, pre-populated destination, stream item, option vector and format.
+type caseIn struct {
+	id      int    // Coq case id; seed_index of the random stream
+	label   string // "" for the random stream, else the deterministic sweep it belongs to
+	t       reflect.Type
+	format  string
+	o       vh.Opts
+	mk      func() reflect.Value // a fresh copy of the pre-populated destination (the same one each time)
+	it      *item
+	src     int // 0 []byte, 1 io.Reader, 2 io.Reader with a 16-byte buffer
+	sample  bool
+	noModel bool // oracles only, no Coq case
+}
+
+// runCase: Decode (twice) against the documented merge, idempotence, every alternate spelling of the
+// stream's nils against the primary one; the observations go to the model as Coq cases.
+func runCase(sum *vh.Summary, cv *vh.Cases, fast bool, build string, c caseIn) {
+	t, format, o, it, i := c.t, c.format, c.o, c.it, c.id
+	var bs []byte
+	if err := codec.NewEncoderBytes(&bs, vh.NewHandle(format, o)).Encode(it.generic()); err != nil {
+		return
+	}
+	d0, d1 := c.mk(), c.mk()
+	before := coqVal(d0)
+	// the bytes come from a []byte or through an io.Reader (buffered or not)
+	src := c.src
+	if src == 2 {
+		o["ReaderBufferSize"] = 16
+	}
+	h := vh.NewHandle(format, o)
+	mkDec := func(bs []byte) func() *codec.Decoder {
+		return func() *codec.Decoder {
+			if src == 0 {
+				return codec.NewDecoderBytes(bs, h)
+			}
+			return codec.NewDecoder(plainReader{bytes.NewReader(bs)}, h)
+		}
+	}
+	r1 := decodeTwice(mkDec(bs), d0)
+	err1, obs, twice, idemOK := r1.err, r1.obs, r1.twice, r1.idemOK
+	d0 = r1.after
+	ctx := &mergeCtx{mapReset: o["MapValueReset"].(bool), sliceReset: o["SliceElementReset"].(bool), ifaceReset: o["InterfaceReset"].(bool)}
+	merge(ctx, d1, it)
+	if ctx.err {
+		return // ill-typed stream for this destination: whether a driver is lenient (json and cbor read numbers into strings) is C01/C07 business
+	}
+	cj := map[string]interface{}{"format": format, "type": t.String(), "opts": o.String(), "stream": vh.Hex(bs), "item": it.coq(), "before": before, "build": build, "source": []string{"bytes", "io.Reader", "io.Reader+buffer"}[src], "seed_index": i}
+	if c.label != "" {
+		cj["sweep"] = c.label
+		delete(cj, "seed_index")
+		cj["index"] = i
+	}
+	switch {
+	case ctx.err != (err1 != nil):
+		cls := "merge:error-differs"
+		if ctx.ifaceElemKept && fast {
+			cls = "paths:fastpath-ignores-SliceElementReset:[]interface{}"
+		}
+		cj["spec_err"], cj["impl_err"] = ctx.err, err1 != nil
+		sum.FailC("merge", cls, "Decode and the documented merge do not fail alike", cj)
+	case err1 == nil && !vh.DeepEq(d0, d1, vh.EqOpts{}):
+		cls := "merge:other"
+		switch {
+		case ctx.nilIntoNonNilPtrField:
+			cls = "nil:struct-field-holding-non-nil-pointer"
+		case ctx.ifaceElemKept && fast:
+			cls = "paths:fastpath-ignores-SliceElementReset:[]interface{}"
+		}
+		cj["got"], cj["want"] = coqVal(d0), coqVal(d1)
+		sum.FailC("merge", cls, "destination after Decode differs from the documented merge (nil = zero, absent = untouched)", cj)
+	}
+	if err1 == nil && !idemOK {
+		sum.FailC("idem", "idem", "decoding the same bytes a second time changed the destination", cj)
+	}
+	pfx := "merge"
+	if c.label != "" {
+		pfx = c.label
+	}
+	// every alternate wire spelling of nil leaves the destination exactly as the primary one does
+	modelled := !hasArray(t) && !(ctx.ifaceElemKept && fast)
+	alts, altNames := altNilStreams(format, bs, it.countNil())
+	for k, ab := range alts {
+		ra := decodeTwice(mkDec(ab), c.mk())
+		judgeAlt(sum, cj, altNames[k], ab, r1, ra)
+		if modelled && !c.noModel {
+			cv.Add(fmt.Sprintf("mkcase %d %s (mkDopts %s %s %s %s) %s %s %s %s %s", 10000000+10*i+k, vh.CoqBool(fast), vh.CoqBool(ctx.mapReset), vh.CoqBool(ctx.sliceReset), vh.CoqBool(ctx.ifaceReset), vh.CoqBool(o["DeleteOnNilMapValue"].(bool)),
+				coqType(t), before, it.coq(), ra.obs, ra.twice))
+			sum.ModelCases++
+		}
+		sum.Count("nilspelling."+format, fmt.Sprintf("%s/%s/%s/%s/err%v", pfx, altNames[k], pathClass(t, fast), t.Kind(), ra.err != nil))
+	}
+	if hasArray(t) {
+		// Go arrays are outside the Coq universe: merge and idempotence oracles only
+		sum.Count(pfx+".array", fmt.Sprintf("%s/array/%s/%s/nil%v/err%v", pfx, format, t.Kind(), it.hasNil(), err1 != nil))
+		return
+	}
+	if ctx.ifaceElemKept && fast {
+		// F19-2 situation: the element's previous dynamic type meets a stream value of another type; what
+		// happens then is driver leniency (json/cbor read numbers into strings), not modelled
+		sum.Count(pfx+"."+pathClass(t, fast), "")
+		return
+	}
+	if !c.noModel {
+		cv.Add(fmt.Sprintf("mkcase %d %s (mkDopts %s %s %s %s) %s %s %s %s %s", i, vh.CoqBool(fast), vh.CoqBool(ctx.mapReset), vh.CoqBool(ctx.sliceReset), vh.CoqBool(ctx.ifaceReset), vh.CoqBool(o["DeleteOnNilMapValue"].(bool)),
+			coqType(t), before, it.coq(), obs, twice))
+		sum.ModelCases++
+	}
+	key := fmt.Sprintf("%s/%s/%s/d%d/%v%v%v/nil%v/err%v", format, pathClass(t, fast), t.Kind(), vh.TypeDepth(t), ctx.mapReset, ctx.sliceReset, ctx.ifaceReset, it.hasNil(), err1 != nil)
+	if c.label != "" {
+		key = c.label + "/" + key
+	}
+	sum.Count(pfx+"."+pathClass(t, fast), key)
+	if c.label == "" {
+		sum.Dist["kind."+t.Kind().String()]++
+		if it.hasNil() {
+			sum.Dist["stream.has-nil"]++
+		}
+	}
+	if c.sample {
+		sum.Sample(cj)
+	}
+}
+
 func main() {
 	n := flag.Int("n", 1500, "cases")
 	cases := flag.String("cases", "/verif/build/c19/cases", "directory for the model case files")
@@ -974,105 +1632,28 @@ func main() {
 		build = "notfastpath"
 	}
 	r := vh.NewRng(vh.SeedFromEnv())
-	sum := vh.NewSummary("random type (int, string, pointer, slice, string-keyed map, struct, interface{}; depth <= 3) x pre-populated destination (nil / shorter / longer slices, allocated pointers, interfaces holding an int64 or a string, maps with extra entries) x stream (value, partial map, prefix array, unknown key, nil at every position with probability 1/5, occasionally ill-typed) x 4 options x 5 formats; distinct by (format, path, type shape, options, has-nil, outcome)")
+	sum := vh.NewSummary("random type (int, string, pointer, slice, string-keyed map, struct, interface{}; depth <= 3) x pre-populated destination (nil / shorter / longer slices, allocated pointers, interfaces holding an int64 or a string, maps with extra entries) x stream (value, partial map, prefix array, unknown key, nil at every position with probability 1/5, occasionally ill-typed) x 4 options x 5 formats, every alternate wire spelling of the stream nils (cbor undefined, json null within whitespace); deterministic sweeps: nil at every single position of a full stream x zero / fully populated destination x formats x spellings; slices longer than the pre-sizing cap max(1024, MaxInitLen); distinct by (format, path, type shape, options, has-nil, outcome)")
 	cv := vh.NewCases(*cases, casesHeader, "case", "mismatches", 60)
 	for i := 0; i < *n; i++ {
 		t := randType(r, r.Intn(4))
 		format := vh.Formats[r.Intn(len(vh.Formats))]
 		o := vh.Opts{"MapValueReset": r.Chance(1, 3), "SliceElementReset": r.Chance(1, 3), "InterfaceReset": r.Chance(1, 3), "DeleteOnNilMapValue": r.Chance(1, 4), "SignedInteger": true, "WriteExt": true, "RawToString": true}
-		h := vh.NewHandle(format, o)
 		vr := r.Fork()
 		st := *vr
-		d0 := reflect.New(t).Elem()
-		fill(vr, d0, 0)
-		st2 := st
-		d1 := reflect.New(t).Elem()
-		fill(&st2, d1, 0)
-		it := randItem(r, t, d0, 5)
-		var bs []byte
-		if err := codec.NewEncoderBytes(&bs, h).Encode(it.generic()); err != nil {
+		mk := func() reflect.Value {
+			s := st
+			d := reflect.New(t).Elem()
+			fill(&s, d, 0)
+			return d
+		}
+		it := randItem(r, t, mk(), 5)
+		if err := codec.NewEncoderBytes(new([]byte), vh.NewHandle(format, o)).Encode(it.generic()); err != nil {
 			continue
 		}
-		before := coqVal(d0)
-		// the bytes come from a []byte or through an io.Reader (buffered or not)
-		src := r.Intn(3)
-		newDec := func() *codec.Decoder {
-			if src == 0 {
-				return codec.NewDecoderBytes(bs, h)
-			}
-			return codec.NewDecoder(plainReader{bytes.NewReader(bs)}, h)
-		}
-		if src == 2 {
-			o["ReaderBufferSize"] = 16
-			h = vh.NewHandle(format, o)
-		}
-		err1 := newDec().Decode(d0.Addr().Interface())
-		obs := "None"
-		twice := "None"
-		idemOK := true
-		if err1 == nil {
-			obs = "(Some " + coqVal(d0) + ")"
-			snap := deepCopy(d0)
-			if err2 := newDec().Decode(d0.Addr().Interface()); err2 == nil {
-				twice = "(Some " + coqVal(d0) + ")"
-				idemOK = vh.DeepEq(snap, d0, vh.EqOpts{})
-			} else {
-				idemOK = false
-			}
-			d0 = snap
-		}
-		ctx := &mergeCtx{mapReset: o["MapValueReset"].(bool), sliceReset: o["SliceElementReset"].(bool), ifaceReset: o["InterfaceReset"].(bool)}
-		merge(ctx, d1, it)
-		if ctx.err {
-			continue // ill-typed stream for this destination: whether a driver is lenient (json and cbor read numbers into strings) is C01/C07 business
-		}
-		cj := map[string]interface{}{"format": format, "type": t.String(), "opts": o.String(), "stream": vh.Hex(bs), "item": it.coq(), "before": before, "build": build, "source": []string{"bytes", "io.Reader", "io.Reader+buffer"}[src], "seed_index": i}
-		switch {
-		case ctx.err != (err1 != nil):
-			cls := "merge:error-differs"
-			if ctx.ifaceElemKept && fast {
-				cls = "paths:fastpath-ignores-SliceElementReset:[]interface{}"
-			}
-			cj["spec_err"], cj["impl_err"] = ctx.err, err1 != nil
-			sum.FailC("merge", cls, "Decode and the documented merge do not fail alike", cj)
-		case err1 == nil && !vh.DeepEq(d0, d1, vh.EqOpts{}):
-			cls := "merge:other"
-			switch {
-			case ctx.nilIntoNonNilPtrField:
-				cls = "nil:struct-field-holding-non-nil-pointer"
-			case ctx.ifaceElemKept && fast:
-				cls = "paths:fastpath-ignores-SliceElementReset:[]interface{}"
-			}
-			cj["got"], cj["want"] = coqVal(d0), coqVal(d1)
-			sum.FailC("merge", cls, "destination after Decode differs from the documented merge (nil = zero, absent = untouched)", cj)
-		}
-		if err1 == nil && !idemOK {
-			sum.FailC("idem", "idem", "decoding the same bytes a second time changed the destination", cj)
-		}
-		if hasArray(t) {
-			// Go arrays are outside the Coq universe: merge and idempotence oracles only
-			sum.Count("merge.array", fmt.Sprintf("array/%s/%s/nil%v/err%v", format, t.Kind(), it.hasNil(), err1 != nil))
-			continue
-		}
-		if ctx.ifaceElemKept && fast {
-			// F19-2 situation: the element's previous dynamic type meets a stream value of another type; what
-			// happens then is driver leniency (json/cbor read numbers into strings), not modelled
-			sum.Count("merge."+pathClass(t, fast), "")
-			continue
-		}
-		cv.Add(fmt.Sprintf("mkcase %d %s (mkDopts %s %s %s %s) %s %s %s %s %s", i, vh.CoqBool(fast), vh.CoqBool(ctx.mapReset), vh.CoqBool(ctx.sliceReset), vh.CoqBool(ctx.ifaceReset), vh.CoqBool(o["DeleteOnNilMapValue"].(bool)),
-			coqType(t), before, it.coq(), obs, twice))
-		sum.ModelCases++
-		key := fmt.Sprintf("%s/%s/%s/d%d/%v%v%v/nil%v/err%v", format, pathClass(t, fast), t.Kind(), vh.TypeDepth(t), ctx.mapReset, ctx.sliceReset, ctx.ifaceReset, it.hasNil(), err1 != nil)
-		sum.Count("merge."+pathClass(t, fast), key)
-		sum.Dist["kind."+t.Kind().String()]++
-		if it.hasNil() {
-			sum.Dist["stream.has-nil"]++
-		}
-		if i < 3 {
-			sum.Sample(cj)
-		}
+		runCase(sum, cv, fast, build, caseIn{id: i, t: t, format: format, o: o, mk: mk, it: it, src: r.Intn(3), sample: i < 3})
 	}
+	nilSweep(sum, cv, fast, build)
+	bigSliceSweep(sum, cv, fast, build)
 	cv.Close()
 	bytesStream(r.Fork(), *n/4, sum)
 	namedBytesStream(sum)
